@@ -393,6 +393,7 @@ def run_stream_case(case):
                     sim.native_req.discard(aid)
 
         stuck = {"recv": 0, "send": 0, "closed_r": 0, "closed_s": 0}
+        span = {"buf": 0, "room": 0}
 
         def monitor(lp):
             st = s0.statistics()
@@ -400,19 +401,26 @@ def run_stream_case(case):
                 out.bad("c12:buffer-bound", "cycle", f"cycle {lp.cycle}: buffer {st.current_buffer_used} > max {maxbuf}")
             lr = [a for a in live(blocked_recv) if blocked_recv[a][1] < lp.cycle - 1]
             ls = [a for a in live(blocked_send) if blocked_send[a][1] < lp.cycle - 1]
-            if lr and (st.current_buffer_used > 0 or ls):
-                stuck["recv"] += 1
-                if stuck["recv"] == 4:
-                    out.bad("c12:lost-wakeup", "receiver", f"cycle {lp.cycle}: receivers {lr} blocked, buffer "
-                                                           f"{st.current_buffer_used}, blocked senders {ls}")
+            # lost wake-up: the SAME receiver and the SAME sender (or a continuously non-empty buffer) have been
+            # blocked side by side for four cycles. (A population of waiters that merely turns over every cycle -
+            # each receiver is served a cycle after some sender parks - is ordinary traffic on a small buffer.)
+            if st.current_buffer_used > 0:
+                span["buf"] += 1
             else:
-                stuck["recv"] = 0
-            if ls and st.current_buffer_used < maxbuf and n_r_open() > 0:
-                stuck["send"] += 1
-                if stuck["send"] == 4:
-                    out.bad("c12:lost-wakeup", "sender", f"cycle {lp.cycle}: senders {ls} blocked with room in the buffer")
+                span["buf"] = 0
+            if st.current_buffer_used < maxbuf:
+                span["room"] += 1
             else:
-                stuck["send"] = 0
+                span["room"] = 0
+            old_r = [a for a in lr if blocked_recv[a][1] <= lp.cycle - 5]
+            old_s = [a for a in ls if blocked_send[a][1] <= lp.cycle - 5]
+            if old_r and (old_s or span["buf"] >= 4) and not stuck.get("recv_reported"):
+                stuck["recv_reported"] = 1
+                out.bad("c12:lost-wakeup", "receiver", f"cycle {lp.cycle}: receivers {old_r} blocked, buffer "
+                                                       f"{st.current_buffer_used}, blocked senders {old_s}")
+            if old_s and span["room"] >= 4 and n_r_open() > 0 and not stuck.get("send_reported"):
+                stuck["send_reported"] = 1
+                out.bad("c12:lost-wakeup", "sender", f"cycle {lp.cycle}: senders {old_s} blocked with room in the buffer")
             if lr and n_s_open() == 0 and st.current_buffer_used == 0 and not blocked_send:
                 stuck["closed_s"] += 1
                 if stuck["closed_s"] == 4:
